@@ -453,7 +453,10 @@ func (vx *Vaxis) Resize() {
 // Render renders the model's content to the terminal
 func (vx *Vaxis) Render() {
 	if atomicLoad(&vx.resize) {
-		defer atomicStore(&vx.resize, false)
+		// take the request before reading the size: a size change that
+		// arrives from here on raises it again and is seen by the next
+		// Render (clearing it on the way out lost that request)
+		atomicStore(&vx.resize, false)
 		ws, err := vx.reportWinsize()
 		if err != nil {
 			log.Error("couldn't report winsize: %v", err)
